@@ -185,18 +185,22 @@ fn probe(rep: &mut Report, what: &str, pair: (Vec<u8>, Vec<u8>)) -> (String, u12
 }
 
 pub fn run(rep: &mut Report) {
+    if let Ok(dir) = std::env::var("C14_DUMP") {
+        for (name, pair) in [("chain20000", chain_pair(20_000)), ("chain17000", chain_pair(17_000)), ("clique12", clique_pair(12)), ("clique11", clique_pair(11)), ("ring3000", ring_pair(3000))] {
+            let d = std::path::Path::new(&dir).join(name);
+            std::fs::create_dir_all(&d).unwrap();
+            std::fs::write(d.join("x.gcno"), &pair.0).unwrap();
+            std::fs::write(d.join("x.gcda"), &pair.1).unwrap();
+        }
+    }
     if std::env::var("C14_PROBE").is_ok() {
-        for n in [1000u32, 3000, 10_000, 15_000, 20_000, 30_000, 50_000, 100_000, 300_000, 1_000_000] {
+        for n in [15_500u32, 16_000, 16_500, 17_000, 17_500, 18_000, 19_000] {
             let (o, ms, size) = probe(rep, "chain", chain_pair(n));
             eprintln!("PROBE chain n={} bytes={} -> {} in {} ms", n, size, o.chars().take(40).collect::<String>(), ms);
         }
-        for n in [1000u32, 3000, 10_000, 20_000, 30_000] {
+        for n in [1500u32, 2000, 2500] {
             let (o, ms, size) = probe(rep, "ring", ring_pair(n));
             eprintln!("PROBE ring n={} bytes={} -> {} in {} ms", n, size, o.chars().take(40).collect::<String>(), ms);
-        }
-        for k in [6u32, 8, 9, 10, 11, 12, 13] {
-            let (o, ms, size) = probe(rep, "clique", clique_pair(k));
-            eprintln!("PROBE clique k={} bytes={} -> {} in {} ms", k, size, o.chars().take(40).collect::<String>(), ms);
         }
     }
 }
